@@ -7,9 +7,10 @@ import vlib
 from vlib import glist
 
 PID = "C08"
-THEOREMS = []
+THEOREMS = ["C08_render_roundtrip", "C08_render_to_string_roundtrip", "C08_injection_safe", "C08_injection_safe_2", "C08_void_no_end_tag",
+            "C08_none_attr_omitted", "C08_false_bool_attr_omitted", "C08_false_dyn_bool_attr_omitted"]
 
-PRE = ("From Coq Require Import List String ZArith.\nFrom Syc Require Import Common.Show Ssr.Html Ssr.View Ssr.Show.\n"
+PRE = ("From Coq Require Import List String ZArith.\nFrom Syc Require Import Common.Show Ssr.Html Ssr.View Ssr.Show.\nRequire Syc.Ssr.RoundTrip.\n"
        "Import ListNotations.\n")
 
 
@@ -50,7 +51,7 @@ def strip_hk(toks):
 
 def main(argv):
     a, seed = vlib.args(argv)
-    chk = vlib.Check(PID, a.tier, seed, "other")
+    chk = vlib.Check(PID, a.tier, seed, "proof")
     rng = random.Random(seed * 8191 + 8)
     chk.trusted = ["Coq 8.16.1 kernel + vm_compute", "hand-written model coq/theories/Ssr/{Html,View}.v tied to ssr_node.rs / view.rs / components.rs / iter.rs by this run",
                    "the tokenizer of Ssr/Html.v as the reading of the HTML standard for the subset the renderer emits (data state, tags, double-quoted attributes, comments incl. <!-->, the four references)",
@@ -62,12 +63,9 @@ def main(argv):
                 "look-alikes in a text, dynamic text, attribute and dynamic attribute slot; random view trees of depth <= 4 over elements (HTML, SVG, "
                 "custom, void), static and dynamic text, dynamic views, Show, Keyed/Indexed, components, NoHydrate/NoSsr, static/dynamic/None and boolean "
                 "attributes; non-trivial = the output contains an escaped metacharacter or a marker comment; distinct = distinct (state, view)")
-    broken = []
-    ok, out = vlib.coq_make(["theories/Ssr/Show.vo"])
-    chk.checker_cmd = "make -C coq theories/Ssr/Show.vo"
-    chk.obligation("coq build theories/Ssr/Show.vo", ok, out)
-    if not ok:
-        broken.append("model does not compile")
+    ok, msg = vlib.proof_step(chk, "C08", ["theories/Props/C08.vo", "theories/Ssr/Show.vo"], THEOREMS)
+    broken = [] if ok else ["theorem: " + msg]
+    vlib.coq_make(["theories/Ssr/Show.vo"])
     okb, outb, binp = vlib.cargo_build("ssr-driver")
     chk.obligation("cargo build ssr-driver against /repo", okb, outb)
     if not okb:
@@ -83,16 +81,24 @@ def main(argv):
     impl = [b.split(" ")[0] for b in blocks]
     mism, orfail = [], []
     model = parsed = None
-    if not broken:
+    if True:
         try:
             per = 150
             exprs = ["run_render %s" % glist(["(%s, %s)" % (viewgen.cq_state(st), viewgen.cq_view(v)) for _, st, v in cases[i:i + per]])
                      for i in range(0, len(cases), per)]
             nrender = len(exprs)
             exprs += ["run_tokenize %s" % glist(['"%s"' % h for h in impl[i:i + per]]) for i in range(0, len(cases), per)]
+            nall = len(exprs)
+            if ok:
+                exprs += ["Common.Show.show_nat (List.length (List.filter (fun v => negb (Ssr.RoundTrip.wf_view v)) %s))" % glist([viewgen.cq_view(v) for _, _, v in cases[i:i + per]])
+                          for i in range(0, len(cases), per)]
             outs = vlib.coq_eval(PID, PRE, exprs, per_file=max(1, (len(exprs) + 31) // 32))
             model = [l for o in outs[:nrender] for l in o.split("\n")]
-            parsed = [l for o in outs[nrender:] for l in o.split("\n")]
+            parsed = [l for o in outs[nrender:nall] for l in o.split("\n")]
+            if ok:
+                notwf = sum(int(o) for o in outs[nall:])
+                chk.obligation("hypothesis of the round-trip theorems: wf_view holds for the %d generated views (tag and attribute names are names)" % len(cases),
+                               notwf == 0, "%d generated views are outside the theorem's hypothesis" % notwf)
         except RuntimeError as e:
             broken.append("model evaluation: " + str(e)[-500:])
             chk.obligation("model evaluation", False, str(e))
